@@ -53,8 +53,8 @@ def body_factory(tier, seed):
         g = GD.Gen(tier, seed)
         dcases = [c for c in g.stratum_handled("all" if tier == "thorough" else 10) if c[0] in ("ok", "bad-res", "skip")]
         # every kind of violation in a handler result, half of them next to a twin class that opts out of validation
-        dcases += [c for c in g.stratum_kinds() if c[0] == "bad-res"]
-        GD.run_cases(rep, dcases, "C04d", PROP, O.c16, view="VC05", kinds=("ok", "bad-res"))
+        dcases += [c for c in g.stratum_kinds() if c[0] in ("bad-res", "malformed-5th")]
+        GD.run_cases(rep, dcases, "C04d", PROP, O.c16, view="VC05", kinds=("ok", "bad-res", "malformed-5th"))
         hg = GH.HGen(tier, seed)
         hs = hg.all()[: (20 if tier == "quick" else 200)]
         GH.run_histories(rep, hs, "C04h", PROP, outbound_oracle, "VH04")
